@@ -13,11 +13,21 @@ Definition run_c (o : opts) (body : bytes) : bytes * bytes :=
   | _ => (str "skip", [])
   end.
 
+(** case kind T: a TCP session = the byte blobs of its connections in order; observation = final table *)
+Definition run_t (o : opts) (body : bytes) : bytes * bytes :=
+  let blobs := map (fun s => match split_on 58 s [] with _ :: rest :: _ => seg_bytes rest | _ => [] end)
+                   (filter (fun s => negb (Nat.eqb (List.length s) 0)) (split 59 body)) in
+  match run_tcp_table o 0 [] blobs with
+  | Ok t => (str "ok", dump_table 0 t)
+  | Panic _ => (str "panic", [])
+  end.
+
 Definition run_case2 (line : bytes) : bytes :=
   match split 9 line with
   | id :: kind :: os :: body :: _ =>
       match kind with
       | [67] => let '(oc, obs) := run_c (parse_opts os) body in id ++ [9] ++ oc ++ [9] ++ obs
+      | [84] => let '(oc, obs) := run_t (parse_opts os) body in id ++ [9] ++ oc ++ [9] ++ obs
       | _ => run_case line
       end
   | _ => []
